@@ -138,6 +138,12 @@ class Universe:
             self.keyfn, self.targs = first, (list, str)
             self.wrong = [("wrong_item", ("q", 0)), ("wrong_key", [5, 0])]
             self.hashable = False
+        elif name == "utuple":
+            # tuples that CONTAIN a list: instances of a hashable class (isinstance(x, Hashable) is true) that cannot be hashed
+            self.specs = [(x, p) for x in self.keys for p in (0, 1)]
+            self.keyfn, self.targs = first, (tuple, str)
+            self.wrong = [("wrong_item", ["q", 0]), ("wrong_key", (5, [0]))]
+            self.hashable = False
         else:
             raise ValueError(name)
 
@@ -154,6 +160,8 @@ class Universe:
                 pool[s] = _spec_classes()["SItem"](key=s[0], value=s[1])
             elif self.name in ("ulist", "tlist"):
                 pool[s] = [s[0], s[1]]
+            elif self.name == "utuple":
+                pool[s] = (s[0], [s[1]])
             elif self.name == "eqtuple":
                 pool[s] = (s[0], 1 if s[1] == "int" else 1.0)
             elif self.name == "eqrepr":
@@ -799,7 +807,7 @@ def explore(shard):
     return C.rec
 
 
-UNIVERSES = ["self", "tuple", "spec", "ulist", "mod2", "selfmismatch", "attr", "eqrepr", "eqtuple", "tlist"]
+UNIVERSES = ["self", "tuple", "spec", "ulist", "utuple", "mod2", "selfmismatch", "attr", "eqrepr", "eqtuple", "tlist"]
 ONLY = {"eqrepr": {"typed": (False,)}, "tlist": {"typed": (True,)}}
 
 
